@@ -60,6 +60,10 @@ inductive Op where
   | removeIdx (t : Loc) (i : Nat)
   | reset (t : Loc)
   | compress (t : Loc)
+  /-- `target = Value{ValueType(k), n}` (reserve constructor, `k` = Object or Array). -/
+  | reserve (t : Loc) (k n : Nat)
+  /-- `GetObject()->Clear()` / `GetArray()->Clear()` on the target. -/
+  | clear (t : Loc)
   /-- `source.GroupBy(root dest, key)`. -/
   | groupBy (dest : Nat) (s : Loc) (k : Key)
   deriving Repr, Inhabited
@@ -147,6 +151,11 @@ def step (fmtReal : Nat → List Nat) (op : Op) (env : Env) : Env × Bool :=
   | .removeIdx t i => (onTarget env t (removeIdx i), true)
   | .reset t => (onTarget env t (fun _ => undef), true)
   | .compress t => (onTarget env t compress, true)
+  | .reserve t k n =>
+      match reservedDoc k n with
+      | some x => (onTarget env t (fun _ => x), true)
+      | none => (onTarget env t id, true)
+  | .clear t => (onTarget env t clearDoc, true)
   | .groupBy dest s k =>
       if dest = s.root then (env, true) else
       match getAt (envGet env s.root) s.path with
